@@ -784,7 +784,7 @@ fn main() {
         run.note(format!("VERIF_SELFTEST={} — the SDK's output is corrupted on purpose", selftest()));
     }
 
-    let per_kind: u32 = run.scale(150, 6000);
+    let per_kind: u32 = run.scale(150, 40000);
     for kind in assets::KINDS {
         let kind: &'static str = kind;
         let n = if kind == "avi" { per_kind * 2 } else { per_kind };
